@@ -32,16 +32,26 @@ RULE = ('operators x operand kinds {pyint, list, int64/int32/float64 array, time
         'big-endian/Fortran/strided) with injected failures, once on writable and once on read-only buffers; process history per family: all entries, L6 re-check of every '
         'result handed out, other-size pass, caller overwrites every result, third pass on equal fresh buffers => equal result; results may not share memory with arguments / '
         'other results; every optional parameter left at its default set to non-default and falsy values; += / -= operands that are ALMOST ramps (one sample off by 1..7 in a step of 1e5..1e9); '
+        'round 2 (c16_r2.py): `seriescopy` lines = copy()/+,-,* on series whose metadata is a generated container graph (dict/list/ndarray nodes, immutable values, un-deep-copyable '
+        'handles lock/generator/file/__deepcopy__-raiser at the top level and nested) x operand shapes (equal, one element, refused) x .time read/unread; oracle with twin recipes: '
+        'metadata recipes x {copy, +,-,*,/ scalar/array/series, bad shape, /0, None, str, copy.copy, copy.deepcopy} x {float64,int64} x .time read/unread, series sharing ONE metadata dict / ONE axis; '
+        'every registry entry made to fail part-way (last channel NaN / zeros, second array one sample short, None for a needed value, negative numeric keywords, unknown method / NFFT<0 / Fs=None in the method dict, invalid unit); '
+        'every entry with two equal-shaped plain arrays with the second the same object / view / transposed-and-back / reversed view / overlapping slice / interleaved rows; analyzers with refused configurations x '
+        '{generic, zero last channel, NaN last channel} (inputs unchanged, attributes left by failed reads, re-reads = fresh analyzer, next ordinary call on the same series), seeds that are views of targets, events that are a view of the data; '
         'distinct = distinct protocol line / entry point x family')
 ASSUMPTIONS = ['the algorithm entry points other than remove_bias/crosscov are judged by snapshots and by the static alias table only (no value model in Lean)',
                'functions documented as working in place are excluded: normalize_coherence(copy=False), normal_coherence_to_unit(out=), unwrap_phases, fill_diagonal, tridi_inverse_iteration(x0=) — named in Props.C16.inPlaceByContract',
                'a result must not share memory with an argument or with the result of another call, except where the routine hands back (a view of) its argument by design: zero_pad at full length, ar_generator(v=), the in-place-by-contract routines, multi_intersect of one array, indexing / slicing / during / at of time objects and series, TimeSeries(data) and Events(t, key=array) wrapping the arrays they are given, a series\' stored .time — c16_ext.RESULT_MAY_BE_ARGUMENT, mirrored by Props.C16.mayReturnArgument on the generated table',
                'a second call with equal arguments must give the equal result up to 1e-9 of the largest magnitude (the global numpy generator is put into the same state before both calls)',
+               'metadata graphs of the `seriescopy` lines are trees (no object shared between two slots, no cycles): python\'s deepcopy memo (sharing inside the copy) is not modelled; the oracle recipes are ordinary nested python values',
+               'copy.copy(series) is python\'s shallow copy (shares by contract): only "the call itself changes nothing" is judged for it; an iterative routine that does not terminate on a spoiled input is cut off after 5 s (its arguments are still compared)',
                'optional parameters are varied one at a time over a name-keyed value table (c16_ext.NAME_VALUES) plus type-derived non-default / falsy values; parameters that ARE the in-place switch (copy, out, x0) are not varied']
 TRUSTED_EXTRA = ['numpy view/copy semantics (ndarray.reshape, astype, copy, asarray, squeeze, conj …) by their documented behaviour, as classified in harness/translate_c16.py (fresh / same object / view)',
                  'harness/translate_c16.py: intraprocedural may-alias analysis with per-file function summaries (its table is echoed into the evidence); unknown calls are treated as returning any of their arguments',
                  'scipy fftconvolve = full linear convolution (the crosscov model computes it naively on rationals; compared numerically on every run)',
-                 'the C01 model for operator result values (checked by the C01 run)']
+                 'the C01 model for operator result values (checked by the C01 run)',
+                 'copy.deepcopy by its documented semantics on dict / list / ndarray graphs: every container reached is rebuilt, immutable values are shared, an object that cannot be pickled / whose __deepcopy__ raises makes it raise (Model/C16Copy.deepCopy; compared with the real copy() on every run)',
+                 'harness/translate_c16.py gen_c16copypath: which handlers re-raise on every path, which names reach `metadata=` (its table is echoed into the evidence)']
 
 UNITS = c01.UNITS
 FACTOR = c01.FACTOR
